@@ -11,11 +11,15 @@ import (
 )
 
 // Positions returns the wire id carried by every position of the 3N-long
-// l||r||o vector of a sparse system with np public inputs, as the solver fills
-// it: row i<np has (wire i, wire 0, wire 0), gate rows their (xa, xb, xc),
-// padding rows (wire 0, wire 0, wire 0).
+// l||r||o vector of a sparse system with np public inputs: row i<np has wire i
+// in L, gate rows their (xa, xb, xc); every other position (R and O of the
+// public rows, padding rows) is a padding position, marked -1: its selectors are
+// zero and the solver fills it with the value of wire 0.
 func Positions(sys *cseval.Sys, N int) []int {
 	pos := make([]int, 3*N)
+	for i := range pos {
+		pos[i] = -1
+	}
 	np := sys.NbPublic
 	for i := 0; i < np; i++ {
 		pos[i] = i
@@ -28,9 +32,11 @@ func Positions(sys *cseval.Sys, N int) []int {
 	return pos
 }
 
-// CheckPermutation verifies that S is a permutation of [0,3N) whose cycle
-// partition EQUALS the partition of positions by wire id: coarser would make
-// honest proofs fail, finer would leave a copy constraint unenforced.
+// CheckPermutation verifies that S is a permutation of [0,3N) such that
+// (soundness) all real positions of one wire lie on ONE cycle, (completeness) no
+// cycle joins real positions of two different wires, and padding positions are
+// only joined with each other or with wire 0 (whose value they carry in an
+// honest solution). Padding positions need not be tied to anything.
 func CheckPermutation(S []int64, pos []int) error {
 	n := len(pos)
 	if len(S) != n {
@@ -45,29 +51,41 @@ func CheckPermutation(S []int64, pos []int) error {
 			return fmt.Errorf("S is not a permutation: value %d twice", s)
 		}
 		seen[s] = true
-		if pos[i] != pos[s] {
-			return fmt.Errorf("S maps position %d (wire %d) to position %d (wire %d): cycle mixes two wires", i, pos[i], s, pos[s])
-		}
 	}
-	// every wire's positions must form ONE cycle
 	count := map[int]int{}
 	for _, w := range pos {
-		count[w]++
+		if w >= 0 {
+			count[w]++
+		}
 	}
 	visited := make([]bool, n)
-	cycles := map[int]int{}
+	cyclesOf := map[int]int{}
 	for i := range S {
 		if visited[i] {
 			continue
 		}
-		l := 0
+		wire, real, pads := -1, 0, 0
 		for j := i; !visited[j]; j = int(S[j]) {
 			visited[j] = true
-			l++
+			if pos[j] < 0 {
+				pads++
+				continue
+			}
+			if wire >= 0 && pos[j] != wire {
+				return fmt.Errorf("a cycle of S joins positions of wires %d and %d: honest proofs would fail", wire, pos[j])
+			}
+			wire = pos[j]
+			real++
 		}
-		cycles[pos[i]]++
-		if l != count[pos[i]] {
-			return fmt.Errorf("wire %d occupies %d positions but a cycle of length %d was found: a copy constraint is not enforced", pos[i], count[pos[i]], l)
+		if wire < 0 {
+			continue // padding only
+		}
+		if pads > 0 && wire != 0 {
+			return fmt.Errorf("a cycle of S joins %d padding positions (value of wire 0) with wire %d: honest proofs would fail", pads, wire)
+		}
+		cyclesOf[wire]++
+		if real != count[wire] {
+			return fmt.Errorf("wire %d occupies %d positions but one of its cycles covers only %d of them: a copy constraint is not enforced", wire, count[wire], real)
 		}
 	}
 	return nil
